@@ -32,6 +32,7 @@ type cmdMsg struct {
 	Args      json.RawMessage `json:"args,omitempty"`
 	Mode      string          `json:"mode,omitempty"`
 	ReadUS    int64           `json:"read_us,omitempty"`
+	WipeUS    int64           `json:"wipe_us,omitempty"`
 	WriteUS   int64           `json:"write_us,omitempty"`
 	Jitter    bool            `json:"jitter,omitempty"`
 	MaxWaitMS int64           `json:"max_wait_ms,omitempty"`
@@ -136,6 +137,7 @@ func handle(c *cmdMsg) {
 		send(reply{ID: c.ID, OK: true, Events: wk.DrainWriteLog(), Writes: wk.WriteCount()})
 	case "delay":
 		wk.SetDelay(time.Duration(c.ReadUS)*time.Microsecond, time.Duration(c.WriteUS)*time.Microsecond, c.Jitter)
+		wk.SetWipeDelay(time.Duration(c.WipeUS) * time.Microsecond)
 		send(reply{ID: c.ID, OK: true})
 	case "mode":
 		// same exported setters the transfer-data RPC uses
